@@ -727,4 +727,58 @@ func c12Included(c *Check, equal *ssa.Function) {
 		c.Ob("R12.4", "Included returns true after retrieve", !res.Reached, p.Pos(r.Pos()), "true is answered only if the blob with that commitment was found in the block", res.Witness...)
 	}
 	c.Floor("R12.4", "true returns of Included", n, 1)
+	c12ProofEqual(c)
+}
+
+// c12ProofEqual: blob.Proof.equal is the comparison Included relies on; it must
+// reject on a difference in every component of the per-row proofs. For each
+// component (method of nmt.Proof) there is a rejecting comparison whose one side
+// derives from the receiver and the other from the argument through that method.
+func c12ProofEqual(c *Check) {
+	p := c.P
+	eq := p.Func("blob", "Proof", "equal")
+	if eq == nil || len(eq.Params) < 2 {
+		c.Unresolved("R12.4", "blob.Proof.equal not found")
+		return
+	}
+	c.SawFunc(eq)
+	via := func(v ssa.Value, method string, param *ssa.Parameter) bool {
+		sl := backSlice(v, SliceOpt{CallArgs: true})
+		return sl.Has(func(x ssa.Value) bool {
+			g, ok := x.(*ssa.Call)
+			if !ok {
+				return false
+			}
+			o := calleeObj(&g.Call)
+			if o == nil || o.Name() != method || len(g.Call.Args) == 0 {
+				return false
+			}
+			rs := backSlice(g.Call.Args[0], SliceOpt{CallArgs: true})
+			return rs.Vals[param] || rs.Has(func(y ssa.Value) bool {
+				// value receivers are spilled: loads of the parameter's spill slot
+				al, ok := y.(*ssa.Alloc)
+				if !ok {
+					return false
+				}
+				for _, r := range *al.Referrers() {
+					if st, ok := r.(*ssa.Store); ok && st.Val == ssa.Value(param) {
+						return true
+					}
+				}
+				return false
+			})
+		})
+	}
+	for _, comp := range []string{"Len", "Nodes", "Start", "End", "LeafHash"} {
+		_, gates := failGates(eq, func(cond ssa.Value, _ *Slice) bool {
+			x, y, ok := comparisonOperands(cond)
+			if !ok {
+				return false
+			}
+			a, b := eq.Params[0], eq.Params[1]
+			return (via(x, comp, a) && via(y, comp, b)) || (via(x, comp, b) && via(y, comp, a))
+		})
+		c.Ob("R12.4", "Proof.equal compares "+comp+"()", len(gates) > 0, p.Pos(eq.Pos()),
+			"a rejecting comparison has "+comp+"() of the node's own proof on one side and of the supplied proof on the other")
+	}
 }
